@@ -53,6 +53,14 @@ func ResetGlobals() {
 	vrt.ResetExecution()
 }
 
+// stripLine turns "file.go:Func:123" into "file.go:Func".
+func stripLine(site string) string {
+	if i := strings.LastIndex(site, ":"); i > 0 && strings.Count(site, ":") >= 2 {
+		return site[:i]
+	}
+	return site
+}
+
 func normBlocked(s string) string {
 	// Drop object numbers so that the fingerprint is stable.
 	var out []string
@@ -90,7 +98,7 @@ func builtinIssues(sc *Scenario, e *vsched.Execution) []Issue {
 	}
 	if !sc.RaceOK {
 		for _, r := range e.Races {
-			a, b := r.A, r.B
+			a, b := stripLine(r.A), stripLine(r.B)
 			if a > b {
 				a, b = b, a
 			}
